@@ -1,50 +1,61 @@
 """
 C20 -- input checks reject exactly the invalid inputs, and only while switched on.
 
-Syntax-directed path rules (E4) over the whole repository:
+E3 effect traces + abstract domains (no shape templates):
 
- guard     every call of a checks._check_* function is the statement of an
-           `if CHECKS.activated:` whose test is exactly that attribute of the
-           object bound in xfab/__init__.py, with no else arm and nothing but
-           check calls in the block (so switching off changes no value)
- site      each API named by the property has its obligation: the check of
-           the right kind, on the right value, dominating every use of the
-           value (input checks) or the return (output checks)
- raise     every raise inside checks._check_* is ValueError
- predicate the three predicates are the ones the property states, with an
-           absolute tolerance window that accepts float32 rotations and
-           rejects 1e-3 perturbations
- setter    two-state automaton of _checkState.activated
+ site      every API the property names is evaluated by E3 twice -- with xfab.CHECKS.activated
+           True and False (default arguments are evaluated with the import-time value) -- and on two
+           sign patterns of its data-dependent tests.  Calls of checks._check_* are recorded with a
+           snapshot of their argument.  ON: the check of the right kind is called on the right value
+           (input: the array made from the parameter, before any call / linalg operation that consumes
+           it; output: the value that is returned; angles: the three parameters).  OFF: no check is
+           called and the returned normal form equals the ON one.
+ guard     (cross-reference, whole repository) a check call that E3 does not reach from an API site
+           must sit under an `if` whose test is the switch
+ predicate checks._check_* evaluated by E3: allclose sites answered by scenario (which quantity, which
+           tolerance window); Euler ranges on the five-region domain {<0, 0, inside, 2pi, >2pi};
+           handedness on the sign of the compared quantity; every raise is ValueError
+ setter    the setter / getter / __init__ evaluated on {True, False, 1, 0, 'True', None} x both states
  writer    no other store to _run_checks, no rebinding of CHECKS
 """
 import ast
+from fractions import Fraction
 
 from xfabsa import core, numeric as N
 from xfabsa.core import AnalysisError
+from xfabsa.api import is_helper
 from xfabsa.poly import Rat
-from xfabsa.symeval import Evaluator, sym_array, Arr, scalar, materialise
+from xfabsa.signatures import SIG
+from xfabsa.symeval import Evaluator, sym_array, Arr, Opaque, Obj, scalar, materialise, RaiseReached, pi_sign, vkey
 
 EXHAUSTIVE = True
 
 # obligations, by API name (the property's list)
 INPUT = "input"      # check(asarray(param k)) before any use
-OUTPUT = "output"    # check(U) after the last store to U, before `return (U, ...)`
-PARAMS = "params"    # check(p0, p1, p2) on the parameters themselves, first statement using them
+OUTPUT = "output"    # check(U) on the orientation that is returned
+PARAMS = "params"    # check(p0, p1, p2) on the parameters themselves
 SITES = {
     "xfab/tools.py": {
         "ubi_to_u": (INPUT, [0], "_check_ubi_matrix"),
-        "ubi_to_u_and_eps": (OUTPUT, "U", "_check_rotation_matrix"),
+        "ubi_to_u_and_eps": (OUTPUT, 0, "_check_rotation_matrix"),
         "euler_to_u": (PARAMS, [0, 1, 2], "_check_euler_angles"),
         "u_to_euler": (INPUT, [0], "_check_rotation_matrix"),
         "u_to_rod": (INPUT, [0], "_check_rotation_matrix"),
         "u_to_ubi": (INPUT, [0], "_check_rotation_matrix"),
-        "ub_to_u_b": (OUTPUT, "U", "_check_rotation_matrix"),
+        "ub_to_u_b": (OUTPUT, 0, "_check_rotation_matrix"),
     },
     "xfab/symmetry.py": {
         "Umis": (INPUT, [0, 1], "_check_rotation_matrix"),
     },
 }
 SITES["xfab/laue.py"] = SITES["xfab/tools.py"]
+ARGS = {
+    "ubi_to_u": [("ubi_matrix", (3, 3))], "ubi_to_u_and_eps": [("ubi_matrix", (3, 3)), ("unit_cell", (6,))],
+    "euler_to_u": [("phi1", None), ("PHI", None), ("phi2", None)], "u_to_euler": [("U_matrix", (3, 3))],
+    "u_to_rod": [("U_matrix", (3, 3))], "u_to_ubi": [("U_matrix", (3, 3)), ("unit_cell", (6,))],
+    "ub_to_u_b": [("UB_matrix", (3, 3))], "Umis": [("umat_1", (3, 3)), ("umat_2", (3, 3)), 1],
+}
+SWITCH = "xfab.CHECKS.activated"
 
 # tolerance window (absolute deviation of an entry of U'U from the identity, resp. of det from 1):
 # a rotation rounded to float32 / perturbed by < 1e-7 per entry deviates by <= sqrt(3)*2e-7+... < 1e-6;
@@ -53,8 +64,132 @@ TOL_MIN, TOL_MAX = 1e-6, 1e-4
 NP_ALLCLOSE_DEFAULT = {"rtol": 1e-5, "atol": 1e-8}
 
 
+def exc_name(r):
+    exc = r.node.exc
+    if isinstance(exc, ast.Call):
+        exc = exc.func
+    return getattr(exc, "id", getattr(exc, "attr", None))
+
+
+def flat(v):
+    if isinstance(v, (Rat, int, float)):
+        return [scalar(v)]
+    A = v if isinstance(v, Arr) else materialise(v)
+    if A is None:
+        return [Rat.atom(v.key())] if isinstance(v, Opaque) else None
+    return [scalar(x) for x in A.flat()]
+
+
+def same(a, b):
+    fa, fb = flat(a), flat(b)
+    return fa is not None and fb is not None and len(fa) == len(fb) and all(x.equals(y) for x, y in zip(fa, fb))
+
+
+def atoms_of(v):
+    f = flat(v) if not isinstance(v, (str, bool, type(None), dict)) else None
+    out = set()
+    for x in f or []:
+        out |= set(x.atoms())
+    return out
+
+
+# ---------------------------------------------------------------------------
+# API sites: effect traces
+# ---------------------------------------------------------------------------
+
+def trace(mod, fname, mode, sign):
+    """E3 run of one API -> (returned value, [(check name, [argument snapshots], event index)], evaluator, parameters)"""
+    params = []
+    for spec in ARGS[fname]:
+        if isinstance(spec, int):
+            params.append(Rat.const(spec))
+        elif spec[1] is None:
+            params.append(Rat.atom(spec[0]))
+        else:
+            params.append(sym_array(spec[0], spec[1]))
+    log = []
+
+    def ipol(name, a, kw, node):
+        if name.startswith("xfab.checks."):
+            log.append((name.rsplit(".", 1)[1], [x.copy() if isinstance(x, Arr) else x for x in a], len(ev.events) - 1))
+            return None
+        return NotImplemented
+
+    def cpol(name, a, kw, node):
+        from props.c14 import make_ret
+        if name in SIG and SIG[name][1] is not None:
+            return make_ret(SIG[name][1], "%s(%s)" % (name, ",".join(vkey(x) for x in a)), Rat.const(1))
+        return NotImplemented
+    ev = Evaluator(mod, inline=set(), import_policy=ipol, call_policy=cpol, sign_policy=lambda d, node=None: sign)
+    ev.threshold_policy = lambda q, t, node: False
+    ev.import_values = {SWITCH: mode}
+    ev.import_values_at_definition = {SWITCH: True}          # the package starts with checks on
+    if "ROTATIONS" in getattr(mod, "assigns", {}):
+        ev._modconst = {"ROTATIONS": [None] + [sym_array("rot%d" % k, (2, 3, 3)) for k in range(1, 8)]}
+    out = ev.call_function(fname, params)
+    return out, log, ev, params
+
+
+def analyse_site(ctx, mod, fname, oblig):
+    kind, what, cname = oblig
+    fn = mod.func(fname)
+    ctx.saw(mod, fn)
+    where = core.loc(mod, fn)
+    key = "C20:site:%s:%s" % (mod.rel, fname)
+    gkey = "C20:guard:%s:%s:%s" % (mod.rel, fname, cname)
+    reached = set()
+    for sign in (1, -1):
+        on_out, on_log, on_ev, params = trace(mod, fname, True, sign)
+        off_out, off_log, _e, _p = trace(mod, fname, False, sign)
+        reached |= {n for n, _a, _i in on_log} | {n for n, _a, _i in off_log}
+        tag = "" if sign == 1 else ":alt"
+        # OFF: nothing is checked, same value
+        ctx.check(not off_log, gkey + tag,
+                  "with CHECKS.activated False, %s still calls checks.%s (the check does not follow the switch: inverted or "
+                  "import-time guard)" % (fname, ", ".join(sorted({n for n, _a, _i in off_log}))), where,
+                  sample={"site": "%s:%s" % (mod.rel, fname), "check": cname, "off_calls": len(off_log), "on_calls": len(on_log)}
+                  if sign == 1 else None)
+        ctx.check(vkey(on_out) == vkey(off_out), "C20:guard:%s:%s:same-value%s" % (mod.rel, fname, tag),
+                  "%s returns a different value with the checks switched off" % fname, where)
+        mine = [(a, i) for n, a, i in on_log if n == cname]
+        if not mine:
+            ctx.fail(key + tag, "with CHECKS.activated True, %s does not call checks.%s" % (fname, cname), where)
+            continue
+        if kind == PARAMS:
+            want = [params[i] for i in what]
+            ok = any(len(a) == len(want) and all(same(x, y) for x, y in zip(a, want)) for a, _i in mine)
+            ctx.check(ok, key + tag, "checks.%s is not called with the parameters (%s)" % (cname, ", ".join(ARGS[fname][i][0] for i in what)),
+                      where)
+        elif kind == INPUT:
+            for k in what:
+                pk = params[k]
+                patoms = atoms_of(pk)
+                hit = [(a, i) for a, i in mine if a and same(a[0], pk)]
+                sub = "%s:param%d%s" % (key, k, tag)
+                if not hit:
+                    ctx.fail(sub, "no checks.%s on the value of parameter `%s`" % (cname, ARGS[fname][k][0]), where)
+                    continue
+                first = min(i for _a, i in hit)
+                early = [(kd, nm) for kd, nm, a in on_ev.events[:first]
+                         if not nm.startswith("xfab.checks.") and any(atoms_of(x) & patoms for x in a)]
+                ctx.check(not early, sub,
+                          "`%s` is used by %s before it is checked: an invalid input reaches that operation first"
+                          % (ARGS[fname][k][0], ", ".join("%s %s" % e for e in early[:3])), where)
+        elif kind == OUTPUT:
+            ret = on_out[what] if isinstance(on_out, (tuple, list)) else on_out
+            a, i = mine[-1]
+            ctx.check(bool(a) and same(a[0], ret), key + tag,
+                      "the orientation that is returned is not the value handed to checks.%s (checked before a later "
+                      "modification, or another array)" % cname, where)
+    return reached
+
+
+# ---------------------------------------------------------------------------
+# cross-reference: check calls E3 does not reach from an API site
+# ---------------------------------------------------------------------------
+
 def is_activated_test(mod, test):
-    """True if the test is exactly CHECKS.activated (of xfab's CHECKS)"""
+    """the test is the switch itself"""
     if isinstance(test, ast.Attribute) and test.attr == "activated":
         v = test.value
         if isinstance(v, ast.Name) and mod.imports.get(v.id) == "xfab.CHECKS":
@@ -63,10 +198,6 @@ def is_activated_test(mod, test):
                 and mod.imports.get(v.value.id) == "xfab":
             return True
     return False
-
-
-def mentions_activated(test):
-    return any(isinstance(n, ast.Attribute) and n.attr == "activated" for n in ast.walk(test))
 
 
 def check_call_name(mod, call):
@@ -80,40 +211,20 @@ def check_call_name(mod, call):
     return None
 
 
-def names_used(node):
-    return {n.id for n in ast.walk(node) if isinstance(n, ast.Name)}
-
-
-def stores_to(node, name):
-    """statements under node that (re)bind or mutate `name`"""
-    out = []
-    for n in ast.walk(node):
-        if isinstance(n, (ast.Assign, ast.AugAssign, ast.AnnAssign)):
-            targets = n.targets if isinstance(n, ast.Assign) else [n.target]
-            for t in targets:
-                for x in ast.walk(t):
-                    if isinstance(x, ast.Name) and x.id == name:
-                        out.append(n)
-    return out
-
-
-def analyse_guards(ctx, mod):
-    """rule guard: returns {function name: [(guard stmt, [check calls])]}"""
-    per_fn = {}
+def analyse_guards(ctx, mod, covered):
+    """every check call outside the functions whose traces were analysed sits in the body of an `if <switch>:`"""
     parents = {}
     for node in ast.walk(mod.tree):
         for ch in ast.iter_child_nodes(node):
             parents[ch] = node
+    n = 0
     for node in ast.walk(mod.tree):
         if not isinstance(node, ast.Call):
             continue
         cname = check_call_name(mod, node)
         if cname is None:
             continue
-        # enclosing function
-        p = node
-        fn = None
-        chain = []
+        p, fn, chain = node, None, [node]
         while p in parents:
             p = parents[p]
             chain.append(p)
@@ -121,378 +232,259 @@ def analyse_guards(ctx, mod):
                 fn = p
                 break
         fname = fn.name if fn is not None else "<module>"
-        where = core.loc(mod, node)
+        if fname in covered or mod.rel == "xfab/checks.py":
+            continue
+        n += 1
         key = "C20:guard:%s:%s:%s" % (mod.rel, fname, cname)
-        # the call must be an expression statement directly inside an If whose test is CHECKS.activated
-        stmt = chain[0] if chain else None
-        guard = chain[1] if len(chain) > 1 else None
-        if not isinstance(stmt, ast.Expr) or not isinstance(guard, ast.If):
-            if mod.rel == "xfab/checks.py":
-                continue
-            ctx.fail(key, "call of checks.%s is not a statement guarded by `if CHECKS.activated:`" % cname, where)
-            continue
-        if stmt not in guard.body:
-            ctx.fail(key, "call of checks.%s sits in the else arm of its guard" % cname, where)
-            continue
-        if not is_activated_test(mod, guard.test):
-            if mentions_activated(guard.test):
-                if isinstance(guard.test, ast.UnaryOp) and isinstance(guard.test.op, ast.Not):
-                    ctx.fail(key, "guard is inverted: `%s`" % core.unparse(guard.test), where)
-                else:
-                    raise AnalysisError("guard `%s` mentions the switch in a form the rule cannot read (%s)"
-                                        % (core.unparse(guard.test), where))
-            else:
-                ctx.fail(key, "call of checks.%s is guarded by `%s`, not by CHECKS.activated"
-                         % (cname, core.unparse(guard.test)), where)
-            continue
-        only_checks = all(isinstance(s, ast.Expr) and isinstance(s.value, ast.Call)
-                          and check_call_name(mod, s.value) for s in guard.body)
-        if not only_checks or guard.orelse:
-            ctx.fail(key, "the guarded block contains more than check calls (or has an else arm): "
-                          "switching checks off would change behaviour", where)
-            continue
-        ctx.ok(key, sample={"site": "%s:%s" % (mod.rel, fname), "check": cname,
-                            "arg": core.unparse(node.args[0]) if node.args else ""})
-        per_fn.setdefault(fname, []).append((guard, node, cname))
-    return per_fn
-
-
-def value_preserving_def(mod, stmt, var, param):
-    """`var = n.asarray(param[, float])` / `n.array(param)` / `var = param`"""
-    if not (isinstance(stmt, ast.Assign) and len(stmt.targets) == 1 and isinstance(stmt.targets[0], ast.Name)
-            and stmt.targets[0].id == var):
-        return False
-    v = stmt.value
-    if isinstance(v, ast.Name) and v.id == param:
-        return True
-    if isinstance(v, ast.Call) and isinstance(v.func, ast.Attribute) and v.func.attr in ("asarray", "array") \
-            and isinstance(v.func.value, ast.Name) and v.func.value.id in mod.np_alias and v.args \
-            and isinstance(v.args[0], ast.Name) and v.args[0].id == param:
-        extra = v.args[1:]
-        return all(isinstance(e, ast.Name) and e.id == "float" for e in extra) and \
-            all(k.arg == "dtype" for k in v.keywords)
-    return False
-
-
-def analyse_site(ctx, mod, fname, oblig, guards):
-    kind, what, cname = oblig
-    fn = mod.func(fname)
-    ctx.saw(mod, fn)
-    where = core.loc(mod, fn)
-    key = "C20:site:%s:%s" % (mod.rel, fname)
-    params = [a.arg for a in fn.args.args]
-    body = core.body_wo_doc(fn)
-    mine = [(g, c) for (g, c, n) in guards.get(fname, []) if n == cname]
-    if not mine:
-        ctx.fail(key, "%s has no guarded call of checks.%s" % (fname, cname), where)
-        return
-    top = {id(s): i for i, s in enumerate(body)}
-    for g, c in mine:
-        if id(g) not in top:
-            raise AnalysisError("%s: guard of %s is nested inside another statement (%s)" % (fname, cname, core.loc(mod, g)))
-    if kind == PARAMS:
-        g, c = mine[0]
-        want = [params[i] for i in what]
-        got = [a.id if isinstance(a, ast.Name) else None for a in c.args]
-        ok = got == want
-        gi = top[id(g)]
-        used_before = set()
-        for s in body[:gi]:
-            used_before |= names_used(s) & set(want)
-        ctx.check(ok and not used_before, key,
-                  "checks.%s is called with %s (expected the parameters %s) or parameters are used before it: %s"
-                  % (cname, got, want, sorted(used_before)), core.loc(mod, c))
-        return
-    if kind == INPUT:
-        for k in what:
-            param = params[k]
-            sub = "%s:param%d" % (key, k)
-            cand = [(g, c) for g, c in mine if c.args and isinstance(c.args[0], ast.Name)]
-            found = False
-            for g, c in cand:
-                var = c.args[0].id
-                gi = top[id(g)]
-                if var == param:
-                    defs_ok = True
-                    pre_uses = set()
-                    for s in body[:gi]:
-                        pre_uses |= names_used(s) & {param}
-                else:
-                    defs = [s for s in body[:gi] if value_preserving_def(mod, s, var, param)]
-                    if not defs:
-                        continue
-                    defs_ok = len(defs) == 1
-                    pre_uses = set()
-                    for s in body[:gi]:
-                        if s is defs[0]:
-                            continue
-                        pre_uses |= names_used(s) & {param, var}
-                found = True
-                restores = []
-                for s in body[gi + 1:]:
-                    restores += stores_to(s, var)
-                ctx.check(defs_ok and not pre_uses and not restores, sub,
-                          "the checked value `%s` is used before the check (%s) or re-assigned after it (%d stores)"
-                          % (var, sorted(pre_uses), len(restores)), core.loc(mod, c))
-                break
-            if not found:
-                ctx.fail(sub, "no guarded checks.%s on parameter `%s` (or on asarray of it)" % (cname, param), where)
-        return
-    if kind == OUTPUT:
-        g, c = mine[-1]
-        var = c.args[0].id if c.args and isinstance(c.args[0], ast.Name) else None
-        gi = top[id(g)]
-        rets = [n for n in ast.walk(fn) if isinstance(n, ast.Return)]
-        ok = var is not None
-        msg = "checks.%s is not called on a local name" % cname
-        if ok:
-            # every return is a top-level statement after the guard whose first element is var
-            for r in rets:
-                if id(r) not in top or top[id(r)] < gi:
-                    ok = False
-                    msg = "a return is not dominated by the check (%s)" % core.loc(mod, r)
-                    break
-                v = r.value
-                first = v.elts[0] if isinstance(v, ast.Tuple) and v.elts else v
-                if not (isinstance(first, ast.Name) and first.id == var):
-                    ok = False
-                    msg = "the returned orientation is `%s`, the checked one `%s`" % (core.unparse(first), var)
-                    break
-        if ok:
-            late = []
-            for s in body[gi + 1:]:
-                late += stores_to(s, var)
-            if late:
-                ok = False
-                msg = "`%s` is modified after the check (%s)" % (var, core.loc(mod, late[0]))
-        ctx.check(ok, key, msg, core.loc(mod, c))
-        return
-    raise AnalysisError("unknown obligation kind")
+        where = core.loc(mod, node)
+        guarded = False
+        for child, par in zip(chain, chain[1:]):
+            if isinstance(par, ast.If) and is_activated_test(mod, par.test) and child in par.body:
+                guarded = True
+        ctx.check(guarded, key, "call of checks.%s is not inside the body of an `if CHECKS.activated:`" % cname, where)
+    return n
 
 
 # ---------------------------------------------------------------------------
 # checks.py
 # ---------------------------------------------------------------------------
 
-def literal_kw(call, name):
-    for k in call.keywords:
-        if k.arg == name:
-            try:
-                return float(ast.literal_eval(k.value))
-            except Exception:
-                raise AnalysisError("tolerance %s of %s is not a literal" % (name, core.unparse(call)))
+def closed_sign(x):
+    if x.is_const():
+        c = x.const_value()
+        return (c > 0) - (c < 0)
+    if x.atoms() <= {"pi"}:
+        return pi_sign(x)
     return None
 
 
-def predicate_ifs(fn):
-    """[(If node, negated test expr)] for `if not <expr>: raise ...` / `if <expr>: raise`"""
-    out = []
-    for st in core.body_wo_doc(fn):
-        if isinstance(st, ast.If):
-            out.append(st)
-        elif isinstance(st, ast.Expr) and isinstance(st.value, ast.Constant):
-            continue
+REGIONS = ("below", "zero", "inside", "twopi", "above")
+
+
+def region_oracle(region):
+    """sign of c*angle + r(pi) for an angle known only by its region relative to [0, 2 pi]"""
+    two_pi = 2 * N.PI
+
+    def signs(d, node=None):
+        atoms = set(d.atoms()) - {"pi"}
+        if len(atoms) != 1:
+            return None
+        a = next(iter(atoms))
+        if a not in region:
+            return None
+        r0 = d.subs({a: Rat.const(0)})
+        c1 = d.subs({a: Rat.const(1)}) - r0
+        if not (c1 * Rat.atom(a) + r0).equals(d):
+            return None
+        sc = closed_sign(c1)
+        if not sc:
+            return None
+        a0 = -r0 / c1                     # d = c1 * (angle - a0)
+        reg = region[a]
+        lo, hi = closed_sign(a0), closed_sign(a0 - two_pi)      # position of a0 relative to 0 and 2 pi
+        if lo is None or hi is None:
+            return None
+        if reg == "zero":
+            rel = -lo
+        elif reg == "twopi":
+            rel = -hi
+        elif reg == "below":
+            rel = -1 if lo >= 0 else None
+        elif reg == "above":
+            rel = 1 if hi <= 0 else None
         else:
-            raise AnalysisError("%s: unexpected statement `%s`" % (fn.name, core.unparse(st)[:60]))
-    return out
+            rel = 1 if lo <= 0 else -1 if hi >= 0 else None
+        return None if rel is None else sc * rel
+    return signs
 
 
 def analyse_checks_module(ctx):
     mod = core.module("xfab/checks.py")
     ctx.saw(mod)
-    # rule raise
-    for name, fn in mod.functions.items():
-        if not name.startswith("_check_"):
-            continue
-        ctx.saw(mod, fn)
-        raises = [n for n in ast.walk(fn) if isinstance(n, ast.Raise)]
-        for r in raises:
-            exc = r.exc
-            nm = exc.func.id if isinstance(exc, ast.Call) and isinstance(exc.func, ast.Name) else \
-                (exc.id if isinstance(exc, ast.Name) else None)
-            ctx.check(nm == "ValueError", "C20:raise:%s:line-of-%s" % (name, core.unparse(r)[:40]),
-                      "%s raises %s, not ValueError" % (name, nm), core.loc(mod, r))
-        ctx.check(len(raises) >= 1, "C20:raise:%s:some" % name, "%s never raises" % name, core.loc(mod, fn))
-        # every path: `if <bad>: raise` -- the body of each predicate `if` is a single raise, no else
-        for st in predicate_ifs(fn):
-            ctx.check(len(st.body) == 1 and isinstance(st.body[0], ast.Raise) and not st.orelse,
-                      "C20:raise:%s:shape:%s" % (name, core.unparse(st.test)[:40]),
-                      "predicate `%s` does not simply raise" % core.unparse(st.test)[:60], core.loc(mod, st))
-    # rule predicate: rotation matrix
-    fn = mod.func("_check_rotation_matrix")
-    ifs = predicate_ifs(fn)
-    pname = fn.args.args[0].arg
+    raised = {}
+
+    def note_raise(fname, name, node):
+        raised.setdefault(fname, []).append((name, node))
+    # ---- rotation matrix: the allclose sites, answered by scenario
+    fn = mod.func("_check_rotation_matrix"); ctx.saw(mod, fn)
+    where = core.loc(mod, fn)
     U = sym_array("U", (3, 3))
+
+    def run_rot(fail):
+        log = []
+        ev = Evaluator(mod, inline=set())
+        orig = ev._np_call
+
+        def hook(name, args, kwargs, node):
+            if name == "allclose":
+                log.append((args, kwargs, node))
+                return (len(log) - 1) != fail
+            return orig(name, args, kwargs, node)
+        ev._np_call = hook
+        try:
+            ev.call_function("_check_rotation_matrix", [U])
+            return log, None, None
+        except RaiseReached as r:
+            return log, exc_name(r), r.node
+    log, exc, _n = run_rot(None)
+    ctx.check(exc is None and len(log) >= 1, "C20:predicate:rotation:accepts",
+              "a matrix passing every comparison is still rejected (%s) or nothing is compared" % exc, where)
     utu = [[sum((Rat.atom("U[%d,%d]" % (k, i)) * Rat.atom("U[%d,%d]" % (k, j)) for k in range(3)), Rat.const(0))
             for j in range(3)] for i in range(3)]
     uut = [[sum((Rat.atom("U[%d,%d]" % (i, k)) * Rat.atom("U[%d,%d]" % (j, k)) for k in range(3)), Rat.const(0))
             for j in range(3)] for i in range(3)]
     seen = {"orth": 0, "det": 0}
-    for st in ifs:
-        t = st.test
-        if not (isinstance(t, ast.UnaryOp) and isinstance(t.op, ast.Not) and isinstance(t.operand, ast.Call)
-                and isinstance(t.operand.func, ast.Attribute) and t.operand.func.attr == "allclose"
-                and len(t.operand.args) == 2):
-            raise AnalysisError("_check_rotation_matrix: predicate `%s` is not `not allclose(a, b)`" % core.unparse(t)[:60])
-        call = t.operand
-        ev = Evaluator(mod, inline=set())
-        a = ev.eval(call.args[0], {pname: U})
-        b = ev.eval(call.args[1], {pname: U})
-        rtol = literal_kw(call, "rtol")
-        atol = literal_kw(call, "atol")
-        rtol = NP_ALLCLOSE_DEFAULT["rtol"] if rtol is None else rtol
-        atol = NP_ALLCLOSE_DEFAULT["atol"] if atol is None else atol
-        for k in call.keywords:
-            if k.arg not in ("rtol", "atol"):
-                raise AnalysisError("allclose keyword %s" % k.arg)
-        where = core.loc(mod, st)
-        A = a if isinstance(a, Arr) else materialise(a) if not isinstance(a, Rat) else None
-        if A is not None and A.shape == (3, 3):
-            B = b if isinstance(b, Arr) else materialise(b)
-            is_eye = B is not None and B.shape == (3, 3) and all(
-                scalar(B.data[i][j]).equals(1 if i == j else 0) for i in range(3) for j in range(3))
-            m1 = all(scalar(A.data[i][j]).equals(utu[i][j]) for i in range(3) for j in range(3))
-            m2 = all(scalar(A.data[i][j]).equals(uut[i][j]) for i in range(3) for j in range(3))
-            ctx.check(is_eye and (m1 or m2), "C20:predicate:rotation:orthonormal",
-                      "orthonormality predicate does not compare U'U (or UU') with the identity: %s"
-                      % core.unparse(call)[:80], where,
-                      sample={"predicate": core.unparse(call), "atol": atol, "rtol": rtol})
+    for k, (args, kwargs, node) in enumerate(log):
+        _l, exck, rnode = run_rot(k)
+        if exck is None:
+            ctx.fail("C20:raise:_check_rotation_matrix:comparison%d" % k, "a failing comparison does not raise", core.loc(mod, node))
+        else:
+            note_raise("_check_rotation_matrix", exck, rnode)
+        if len(args) != 2 or set(kwargs) - {"rtol", "atol"}:
+            raise AnalysisError("_check_rotation_matrix: allclose call of unexpected form (line %d)" % node.lineno)
+        rtol = float(scalar(kwargs["rtol"]).const_value()) if "rtol" in kwargs else NP_ALLCLOSE_DEFAULT["rtol"]
+        atol = float(scalar(kwargs["atol"]).const_value()) if "atol" in kwargs else NP_ALLCLOSE_DEFAULT["atol"]
+        wh = core.loc(mod, node)
+        verdict = None
+        for a, b in (args, args[::-1]):
+            A = a if isinstance(a, Arr) else (materialise(a) if not isinstance(a, (Rat, int, float)) else None)
+            if A is not None and A.shape == (3, 3):
+                B = b if isinstance(b, Arr) else (materialise(b) if not isinstance(b, (Rat, int, float)) else None)
+                is_eye = B is not None and B.shape == (3, 3) and all(
+                    scalar(B.data[i][j]).equals(1 if i == j else 0) for i in range(3) for j in range(3))
+                m1 = all(scalar(A.data[i][j]).equals(utu[i][j]) for i in range(3) for j in range(3))
+                m2 = all(scalar(A.data[i][j]).equals(uut[i][j]) for i in range(3) for j in range(3))
+                if is_eye and (m1 or m2):
+                    verdict = "orth"
+                    break
+            elif isinstance(a, (Rat, int, float)) or (isinstance(a, Opaque) and a.shape is None):
+                try:
+                    if scalar(a).key() == "det(U)" and scalar(b).equals(1):
+                        verdict = "det"
+                        break
+                except AnalysisError:
+                    pass
+        if verdict == "orth":
             seen["orth"] += 1
-            # tolerance window: off-diagonal targets are 0 (only atol acts), diagonal targets are 1
-            off, diag = atol, atol + rtol
+            ctx.ok("C20:predicate:rotation:orthonormal", sample={"predicate": "allclose(U'U, I)", "atol": atol, "rtol": rtol})
+            off, diag = atol, atol + rtol          # off-diagonal targets are 0 (only atol acts), diagonal targets are 1
             ctx.check(TOL_MIN <= off <= TOL_MAX and TOL_MIN <= diag <= TOL_MAX,
                       "C20:predicate:rotation:orthonormal-tolerance",
                       "allclose tolerance on the entries of U'U is %.3g off the diagonal / %.3g on it; a valid "
                       "float32-precision rotation deviates by up to ~4e-7 and must be accepted, a 1e-3 perturbation "
-                      "(>= 5.8e-4) must be rejected: window [%g, %g]" % (off, diag, TOL_MIN, TOL_MAX), where)
-        else:
-            sa = scalar(a)
-            isdet = sa.key() == "det(U)"
-            one = scalar(b).equals(1)
-            ctx.check(isdet and one, "C20:predicate:rotation:det", "determinant predicate is not allclose(det(U), 1): %s"
-                      % core.unparse(call)[:80], where)
+                      "(>= 5.8e-4) must be rejected: window [%g, %g]" % (off, diag, TOL_MIN, TOL_MAX), wh)
+        elif verdict == "det":
             seen["det"] += 1
+            ctx.ok("C20:predicate:rotation:det")
             tol = atol + rtol
             ctx.check(TOL_MIN <= tol <= 1e-3, "C20:predicate:rotation:det-tolerance",
-                      "allclose tolerance on det U is %.3g; window [%g, 1e-3]" % (tol, TOL_MIN), where)
-    ctx.check(seen["orth"] == 1 and seen["det"] == 1, "C20:predicate:rotation:both",
-              "rotation check does not test orthonormality and determinant exactly once each (%s)" % seen,
-              core.loc(mod, fn))
-    # Euler angles: three predicates `not (0 <= x <= 2*pi)`
-    fn = mod.func("_check_euler_angles")
-    params = [a.arg for a in fn.args.args]
-    covered = []
-    for st in predicate_ifs(fn):
-        t = st.test
-        ok = False
-        if isinstance(t, ast.UnaryOp) and isinstance(t.op, ast.Not) and isinstance(t.operand, ast.Compare):
-            c = t.operand
-            if len(c.ops) == 2 and all(isinstance(o, ast.LtE) for o in c.ops) and isinstance(c.comparators[0], ast.Name):
-                ev = Evaluator(mod, inline=set())
-                lo = ev.eval(c.left, {})
-                hi = ev.eval(c.comparators[1], {})
-                if scalar(lo).equals(0) and scalar(hi).equals(2 * N.PI):
-                    ok = True
-                    covered.append(c.comparators[0].id)
-        ctx.check(ok, "C20:predicate:euler:%s" % core.unparse(t)[:30],
-                  "Euler predicate is not `not (0 <= angle <= 2*pi)`: %s" % core.unparse(t)[:60], core.loc(mod, st))
-    ctx.check(sorted(covered) == sorted(params) and len(params) == 3, "C20:predicate:euler:all-three",
-              "Euler check covers %s of parameters %s" % (covered, params), core.loc(mod, fn))
-    # UBI handedness: dot(ubi[2], cross(ubi[0], ubi[1])) < 0 -> raise
-    fn = mod.func("_check_ubi_matrix")
-    ifs = predicate_ifs(fn)
-    okubi = False
-    if len(ifs) == 1 and isinstance(ifs[0].test, ast.Compare) and len(ifs[0].test.ops) == 1 \
-            and isinstance(ifs[0].test.ops[0], ast.Lt):
-        ev = Evaluator(mod, inline=set())
-        M = sym_array("ubi", (3, 3))
-        lhs = scalar(ev.eval(ifs[0].test.left, {fn.args.args[0].arg: M}))
-        rhs = scalar(ev.eval(ifs[0].test.comparators[0], {}))
-        m = [[Rat.atom("ubi[%d,%d]" % (i, j)) for j in range(3)] for i in range(3)]
-        det = (m[0][0] * (m[1][1] * m[2][2] - m[1][2] * m[2][1]) - m[0][1] * (m[1][0] * m[2][2] - m[1][2] * m[2][0])
-               + m[0][2] * (m[1][0] * m[2][1] - m[1][1] * m[2][0]))
-        okubi = lhs.equals(det) and rhs.equals(0)
+                      "allclose tolerance on det U is %.3g; window [%g, 1e-3]" % (tol, TOL_MIN), wh)
+        else:
+            ctx.fail("C20:predicate:rotation:orthonormal" if k == 0 else "C20:predicate:rotation:det",
+                     "comparison %d of the rotation check is neither allclose(U'U or UU', identity) nor allclose(det(U), 1): %s"
+                     % (k, core.unparse(node)[:80]), wh)
+    ctx.check(seen["orth"] >= 1 and seen["det"] >= 1, "C20:predicate:rotation:both",
+              "rotation check does not test both orthonormality and the determinant (%s)" % seen, where)
+    # ---- Euler angles on the five-region domain
+    fn = mod.func("_check_euler_angles"); ctx.saw(mod, fn)
+    where = core.loc(mod, fn)
+    names = [a.arg for a in fn.args.args]
+    if len(names) != 3:
+        raise AnalysisError("_check_euler_angles does not take three angles")
+    for k, nm in enumerate(names):
+        for reg in REGIONS:
+            region = {n_: "inside" for n_ in names}
+            region[nm] = reg
+            ev = Evaluator(mod, inline=set(), sign_policy=region_oracle(region))
+            try:
+                ev.call_function("_check_euler_angles", [Rat.atom(n_) for n_ in names])
+                exc, rnode = None, None
+            except RaiseReached as r:
+                exc, rnode = exc_name(r), r.node
+            want = reg in ("below", "above")
+            if exc is not None:
+                note_raise("_check_euler_angles", exc, rnode)
+            ctx.check((exc is not None) == want, "C20:predicate:euler:%s:%s" % (nm, reg),
+                      "Euler angle %s %s [0, 2 pi] is %s" % (nm, {"below": "below", "zero": "at the lower end of", "inside": "inside",
+                                                                  "twopi": "at the upper end of", "above": "above"}[reg],
+                                                             "rejected" if exc else "accepted"), where,
+                      sample={"angle": nm, "region": reg, "raises": exc} if (k, reg) == (1, "above") else None)
+    # ---- UBI handedness: sign of the compared quantity
+    fn = mod.func("_check_ubi_matrix"); ctx.saw(mod, fn)
+    where = core.loc(mod, fn)
+    M = sym_array("ubi", (3, 3))
+    m = [[Rat.atom("ubi[%d,%d]" % (i, j)) for j in range(3)] for i in range(3)]
+    det = (m[0][0] * (m[1][1] * m[2][2] - m[1][2] * m[2][1]) - m[0][1] * (m[1][0] * m[2][2] - m[1][2] * m[2][0])
+           + m[0][2] * (m[1][0] * m[2][1] - m[1][1] * m[2][0]))
+    outcomes, asked = {}, []
+    for sg in (-1, 0, 1):
+        def signs(d, node=None, sg=sg):
+            asked.append(d)
+            return sg
+        ev = Evaluator(mod, inline=set(), sign_policy=signs)
+        try:
+            ev.call_function("_check_ubi_matrix", [M])
+            outcomes[sg] = None
+        except RaiseReached as r:
+            outcomes[sg] = exc_name(r)
+            note_raise("_check_ubi_matrix", outcomes[sg], r.node)
+    orient = 0
+    if asked and all(x.equals(asked[0]) for x in asked):
+        orient = 1 if N.pos_multiple(asked[0], det) else -1 if N.pos_multiple(-asked[0], det) else 0
+    okubi = orient != 0 and all((outcomes[sg] is not None) == (sg * orient < 0) for sg in (-1, 0, 1))
     ctx.check(okubi, "C20:predicate:ubi:handedness",
-              "UBI check is not `det(rows of ubi) < 0 -> raise` (triple product of the three rows)", core.loc(mod, fn))
-    # rule setter
+              "UBI check is not `det(rows of ubi) < 0 -> raise` (triple product of the three rows): compares %s, raises for signs %s"
+              % (N.short(asked[0]) if asked else "nothing", [sg for sg in outcomes if outcomes[sg]]), where)
+    # ---- every raise is ValueError
+    for fname in ("_check_rotation_matrix", "_check_euler_angles", "_check_ubi_matrix"):
+        got = raised.get(fname, [])
+        ctx.check(len(got) >= 1, "C20:raise:%s:some" % fname, "%s never raises" % fname, core.loc(mod, mod.func(fname)))
+        bad = [(nm, nd) for nm, nd in got if nm != "ValueError"]
+        ctx.check(not bad, "C20:raise:%s:type" % fname, "%s raises %s, not ValueError" % (fname, bad[0][0] if bad else ""),
+                  core.loc(mod, bad[0][1]) if bad else core.loc(mod, mod.func(fname)))
+    # ---- the switch: a two-state automaton
     cls = "_checkState"
     init = mod.method(cls, "__init__")
-    st_init = [s for s in ast.walk(init) if isinstance(s, ast.Assign) and isinstance(s.targets[0], ast.Attribute)
-               and s.targets[0].attr == "_run_checks"]
-    ctx.check(len(st_init) == 1 and isinstance(st_init[0].value, ast.Constant) and st_init[0].value.value is True,
-              "C20:setter:init", "__init__ does not store True into _run_checks exactly once", core.loc(mod, init))
     props = mod.methods(cls, "activated")
     getter = [f for f in props if any(isinstance(d, ast.Name) and d.id == "property" for d in f.decorator_list)]
     setter = [f for f in props if any(isinstance(d, ast.Attribute) and d.attr == "setter" for d in f.decorator_list)]
     if len(getter) != 1 or len(setter) != 1:
         raise AnalysisError("anchor vanished: property `activated` with getter and setter in checks._checkState")
-    g = core.body_wo_doc(getter[0])
-    okg = False
-    if len(g) == 1 and isinstance(g[0], ast.Return):
-        v = g[0].value
-        def is_rc(n):
-            return isinstance(n, ast.Attribute) and n.attr == "_run_checks" and isinstance(n.value, ast.Name) and n.value.id == "self"
-        if is_rc(v):
-            okg = True
-        elif isinstance(v, ast.BoolOp) and isinstance(v.op, ast.And) and len(v.values) == 2:
-            a, b = v.values
-            okg = (is_rc(a) and isinstance(b, ast.Name) and b.id == "__debug__") or \
-                  (is_rc(b) and isinstance(a, ast.Name) and a.id == "__debug__")
-    ctx.check(okg, "C20:setter:getter", "getter is not `self._run_checks [and __debug__]`", core.loc(mod, getter[0]))
+    o = Obj("state")
+    Evaluator(mod, inline=set()).run_body(init, {init.args.args[0].arg: o})
+    ctx.check(o.attrs.get("_run_checks") is True, "C20:setter:init", "__init__ does not leave the switch on (True)", core.loc(mod, init))
+    okg = True
+    for st in (True, False):
+        o = Obj("state", _run_checks=st)
+        ret, _env = Evaluator(mod, inline=set()).run_body(getter[0], {getter[0].args.args[0].arg: o})
+        okg = okg and ret is st
+    ctx.check(okg, "C20:setter:getter", "the getter does not return the stored state (and __debug__)", core.loc(mod, getter[0]))
     sfn = setter[0]
-    vname = sfn.args.args[1].arg
-    sb = core.body_wo_doc(sfn)
-    verdict = None
-    if sb and isinstance(sb[0], ast.If):
-        t = sb[0].test
-        def isnot(c, const):
-            return (isinstance(c, ast.Compare) and len(c.ops) == 1 and isinstance(c.ops[0], ast.IsNot)
-                    and isinstance(c.left, ast.Name) and c.left.id == vname
-                    and isinstance(c.comparators[0], ast.Constant) and c.comparators[0].value is const)
-        def is_(c, const):
-            return (isinstance(c, ast.Compare) and len(c.ops) == 1 and isinstance(c.ops[0], ast.Is)
-                    and isinstance(c.left, ast.Name) and c.left.id == vname
-                    and isinstance(c.comparators[0], ast.Constant) and c.comparators[0].value is const)
-        exact = False
-        if isinstance(t, ast.BoolOp) and isinstance(t.op, ast.And) and len(t.values) == 2:
-            exact = (isnot(t.values[0], True) and isnot(t.values[1], False)) or \
-                    (isnot(t.values[0], False) and isnot(t.values[1], True))
-        if isinstance(t, ast.UnaryOp) and isinstance(t.op, ast.Not):
-            o = t.operand
-            if isinstance(o, ast.BoolOp) and isinstance(o.op, ast.Or) and len(o.values) == 2:
-                exact = (is_(o.values[0], True) and is_(o.values[1], False)) or (is_(o.values[0], False) and is_(o.values[1], True))
-            if isinstance(o, ast.Call) and isinstance(o.func, ast.Name) and o.func.id == "isinstance" and len(o.args) == 2 \
-                    and isinstance(o.args[0], ast.Name) and o.args[0].id == vname \
-                    and isinstance(o.args[1], ast.Name) and o.args[1].id == "bool":
-                exact = True
-        weak = any(isinstance(n, (ast.NotIn, ast.In, ast.NotEq, ast.Eq)) for n in ast.walk(t))
-        raising = len(sb[0].body) == 1 and isinstance(sb[0].body[0], ast.Raise)
-        rest = sb[0].orelse + sb[1:]
-        stores = [s for s in rest if isinstance(s, ast.Assign) and isinstance(s.targets[0], ast.Attribute)
-                  and s.targets[0].attr == "_run_checks" and isinstance(s.value, ast.Name) and s.value.id == vname]
-        store_on_raise = [s for s in ast.walk(sb[0]) if s in sb[0].body and isinstance(s, ast.Assign)]
-        if exact and raising and len(stores) == 1 and len(rest) == 1 and not store_on_raise:
-            verdict = True
-        elif weak:
-            verdict = False
-            why = "setter test `%s` is not an identity test against True/False (1, 0, numpy bools compare equal)" \
-                  % core.unparse(t)
-        elif exact and not (raising and len(stores) == 1 and len(rest) == 1):
-            verdict = False
-            why = "setter does not (raise and leave the state unchanged) / (store the value) in the two arms"
-    if verdict is None:
-        # other recognisable failure: no test at all
-        if not any(isinstance(n, ast.Raise) for n in ast.walk(sfn)):
-            verdict = False
-            why = "setter never raises: any value is accepted"
-        else:
-            raise AnalysisError("setter of `activated` has a form the rule cannot read (%s)" % core.loc(mod, sfn))
-    ctx.check(verdict, "C20:setter:automaton", "" if verdict else why, core.loc(mod, sfn),
-              sample={"setter_test": core.unparse(sb[0].test) if sb and isinstance(sb[0], ast.If) else ""})
-    # the raise in the setter is ValueError
-    for r in [n for n in ast.walk(sfn) if isinstance(n, ast.Raise)]:
-        nm = r.exc.func.id if isinstance(r.exc, ast.Call) and isinstance(r.exc.func, ast.Name) else None
-        ctx.check(nm == "ValueError", "C20:setter:raise-type", "setter raises %s" % nm, core.loc(mod, r))
+    problems = []
+    rtypes = set()
+    values = [("True", True, True), ("False", False, True), ("1", Rat.const(1), False), ("0", Rat.const(0), False),
+              ("'True'", "True", False), ("None", None, False), ("0.5", Rat.const(Fraction(1, 2)), False)]
+    for st in (True, False):
+        for label, v, valid in values:
+            o = Obj("state", _run_checks=st)
+            try:
+                Evaluator(mod, inline=set()).run_body(sfn, {sfn.args.args[0].arg: o, sfn.args.args[1].arg: v})
+                exc = None
+            except RaiseReached as r:
+                exc = exc_name(r)
+                rtypes.add(exc)
+            if valid:
+                if exc is not None or o.attrs["_run_checks"] is not v:
+                    problems.append("assigning %s from state %s: raises %s / state becomes %r" % (label, st, exc, o.attrs["_run_checks"]))
+            else:
+                if exc is None:
+                    problems.append("setter test is not an identity test against True/False: assigning %s is accepted "
+                                    "(1, 0, numpy bools compare equal)" % label)
+                elif o.attrs["_run_checks"] is not st or o.stores:
+                    problems.append("assigning %s raises but the state was already changed" % label)
+    ctx.check(not problems, "C20:setter:automaton", "; ".join(problems[:2]), core.loc(mod, sfn),
+              sample={"values": [l for l, _v, _ok in values], "states": [True, False]})
+    ctx.check(rtypes <= {"ValueError"}, "C20:setter:raise-type", "setter raises %s" % sorted(rtypes), core.loc(mod, sfn))
 
 
 def analyse_writers(ctx):
@@ -536,27 +528,28 @@ def analyse_writers(ctx):
 
 
 def run(ctx):
-    ctx.rule("guard", "every checks._check_* call is the statement of `if CHECKS.activated:` with only check calls inside")
-    ctx.rule("site", "each API of the property has its check, on the right value, dominating use / return")
+    ctx.rule("site", "E3 trace of each API: ON the right check on the right value before use / on the returned value; OFF no check")
+    ctx.rule("guard", "the checks follow the switch (ON/OFF traces, same value); unreached check calls sit under `if CHECKS.activated:`")
     ctx.rule("raise", "every raise in checks._check_* is ValueError")
     ctx.rule("predicate", "predicates are the stated ones; tolerance window accepts float32, rejects 1e-3")
-    ctx.rule("setter", "activated setter: identity test against True/False, raise leaves the state unchanged")
+    ctx.rule("setter", "activated setter: only True/False accepted, a rejected value leaves the state unchanged")
     ctx.rule("writer", "single writer of _run_checks; CHECKS bound once")
     nsites = 0
+    nguard = 0
     for rel in core.all_repo_python_files():
         if rel.startswith("test/"):
             continue
         mod = core.module(rel)
         ctx.saw(mod)
-        guards = analyse_guards(ctx, mod)
+        covered = set()
         if rel in SITES:
             for fname, oblig in SITES[rel].items():
-                analyse_site(ctx, mod, fname, oblig, guards)
+                analyse_site(ctx, mod, fname, oblig)
+                covered.add(fname)
                 nsites += 1
-            extra = sorted(set(guards) - set(SITES[rel]))
-            if extra:
-                ctx.note("%s: additional guarded check sites beyond the property's list: %s" % (rel, extra))
-        nsites_here = sum(len(v) for v in guards.values())
+            # helpers seen through by the traces
+            covered |= {f for f in mod.functions if is_helper(mod, f)}
+        nguard += analyse_guards(ctx, mod, covered)
     ctx.floor("API obligations", nsites, 15)
     # the positive example for the zero-count rule "no unguarded check call"
     import os
@@ -571,7 +564,7 @@ def run(ctx):
             np_alias = {"n"}
         _M.tree = tree
         probe = core.Ctx("C20", "quick")
-        analyse_guards(probe, _M)
+        analyse_guards(probe, _M, set())
         if len(probe.fails) != 2:
             raise AnalysisError("positive example: the unguarded-call rule matched %d of 2 planted sites" % len(probe.fails))
         ctx.note("positive example: guard rule fires on both planted sites of selftest/positive/c20_unguarded.py")
@@ -580,8 +573,10 @@ def run(ctx):
     analyse_checks_module(ctx)
     analyse_writers(ctx)
     ctx.assumptions += ["numpy.allclose(a, b, rtol, atol) is |a-b| <= atol + rtol*|b| with defaults 1e-5 / 1e-8",
-                        "histories are decided through the two-state automaton of the setter and the single-writer rule"]
-    return ("Path rules over every non-test Python file of the repository: each checks._check_* call is guarded by "
-            "exactly `if CHECKS.activated:`, nothing else is in a guarded block, each of the property's APIs checks "
-            "the right value before use / return; every raise is ValueError; the predicates are the stated ones with "
-            "tolerances inside the float32-accepting window; the switch is a two-state automaton with a single writer.")
+                        "histories are decided through the two-state automaton of the setter and the single-writer rule",
+                        "default arguments are evaluated at import, when the switch is in its initial state (on)"]
+    return ("Each of the property's APIs is evaluated by E3 with the switch on and off: on, the right check is called on the "
+            "right value before any consuming operation (inputs) or on the returned orientation (outputs); off, no check is "
+            "called and the value is the same.  The predicates are evaluated on abstract domains (allclose scenarios with "
+            "their tolerance window, five regions per Euler angle, the sign of the handedness determinant), every raise is "
+            "ValueError, the switch is a two-state automaton over six kinds of assigned values with a single writer.")
